@@ -360,3 +360,95 @@ Lemma cmdexit_effect s th i c s' : step_env s th (ECmdExit i c) = Some s' ->
   exists x, get i (insts s) = Some x /\ alive x = true /\
             s' = upd_inst i (fun x => x <| alive := false |> <| exited := Some c |>) s.
 Proof. intros H. unfold step_env in H. break_step H. subst s'. eauto. Qed.
+
+(* ---- observer-side frame: events that leave the per-instance facts and the reported status alone -------- *)
+Definition ofr (x x' : oinst) : Prop :=
+  o_nm x' = o_nm x /\ o_launches x' = o_launches x /\ o_alive x' = o_alive x /\ o_code x' = o_code x /\
+  o_endst x' = o_endst x /\ o_ended x' = o_ended x /\ o_byapi x' = o_byapi x.
+
+Definition osame (o o' : obs) : Prop :=
+  (forall j, match get j (oi o) with
+             | Some x => exists x', get j (oi o') = Some x' /\ ofr x x'
+             | None => get j (oi o') = None end) /\
+  (forall n, match get n (onm o) with
+             | Some r => exists r', get n (onm o') = Some r' /\ r_status r' = r_status r
+             | None => get n (onm o') = None end).
+
+Lemma ofr_refl x : ofr x x. Proof. repeat split. Qed.
+Lemma osame_refl o : osame o o.
+Proof.
+  split; intros k; [destruct (get k (oi o)) as [x|]|destruct (get k (onm o)) as [r|]]; eauto using ofr_refl.
+Qed.
+Lemma osame_trans o1 o2 o3 : osame o1 o2 -> osame o2 o3 -> osame o1 o3.
+Proof.
+  intros (B1 & C1) (B2 & C2). split.
+  - intros j. specialize (B1 j). specialize (B2 j). destruct (get j (oi o1)) as [x|].
+    + destruct B1 as (x2 & E2 & F2). rewrite E2 in B2. destruct B2 as (x3 & E3 & F3). exists x3. split; [exact E3|].
+      unfold ofr in *. intuition congruence.
+    + now rewrite B1 in B2.
+  - intros n. specialize (C1 n). specialize (C2 n). destruct (get n (onm o1)) as [r|].
+    + destruct C1 as (r2 & E2 & ?). rewrite E2 in C2. destruct C2 as (r3 & E3 & ?). exists r3. split; congruence.
+    + now rewrite C1 in C2.
+Qed.
+Lemma osame_eq o o' : oi o' = oi o -> onm o' = onm o -> osame o o'.
+Proof.
+  intros B C. split.
+  - intros k. rewrite B. destruct (get k (oi o)) as [x|]; eauto using ofr_refl.
+  - intros k. rewrite C. destruct (get k (onm o)) as [r|]; eauto.
+Qed.
+Lemma osame_oi_upd i f o : (forall x, ofr x (f x)) -> osame o (oi_upd i f o).
+Proof.
+  intros Hf. split.
+  - intros j. rewrite oi_upd_get. destruct (N.eqb i j); destruct (get j (oi o)) as [x|]; cbn; eauto using ofr_refl.
+  - intros n. rewrite oi_upd_onm. destruct (get n (onm o)) as [r|]; eauto.
+Qed.
+Lemma osame_on_upd n f o : (forall r, r_status (f r) = r_status r) -> osame o (on_upd n f o).
+Proof.
+  intros Hf. split.
+  - intros j. rewrite on_upd_oi. destruct (get j (oi o)) as [x|]; eauto using ofr_refl.
+  - intros m. rewrite on_upd_get. destruct (N.eqb n m); destruct (get m (onm o)) as [r|]; cbn; eauto.
+Qed.
+Lemma osame_fold_oi_upd (f : oinst -> oinst) l : (forall x, ofr x (f x)) ->
+  forall o, osame o (fold_left (fun o i => oi_upd i f o) l o).
+Proof.
+  intros Hf. induction l as [|a l IH]; intros o; cbn; [apply osame_refl|].
+  eapply osame_trans; [apply (osame_oi_upd a f o Hf)|apply IH].
+Qed.
+Lemma osame_refresh o : osame o (refresh_succ o).
+Proof.
+  split.
+  - intros j. rewrite refresh_get. destruct (get j (oi o)) as [x|]; cbn; [|reflexivity].
+    eexists; split; [reflexivity|]. destruct (_ && _); unfold ofr; cbn; repeat split; reflexivity.
+  - intros n. cbn. destruct (get n (onm o)) as [r|]; eauto.
+Qed.
+
+Ltac osame_close :=
+  repeat first
+  [ apply osame_refl
+  | match goal with
+    | |- osame ?o (oi_upd ?i ?f ?X) =>
+        apply (osame_trans o X); [|apply osame_oi_upd; intros; unfold ofr; cbn; repeat split; reflexivity]
+    | |- osame ?o (on_upd ?n ?f ?X) =>
+        apply (osame_trans o X); [|apply osame_on_upd; intros; cbn; reflexivity]
+    | |- osame ?o (fold_left (fun o i => oi_upd i ?f o) ?l ?X) =>
+        apply (osame_trans o X); [|apply osame_fold_oi_upd; intros; unfold ofr; cbn; repeat split; reflexivity]
+    | |- osame ?o (RecordSet.set _ _ ?X) =>
+        apply (osame_trans o X); [|apply osame_eq; reflexivity]
+    end ].
+
+Definition oexc (e : event) : bool :=
+  match e with
+  | ENewInst _ _ | ELaunch true | EState _ _ | ECmdExit _ _ | EProcEnd _ _ => true
+  | _ => false
+  end.
+
+Lemma obs_step_osame cs o th e : oexc e = false -> osame o (obs_step cs o (th, e)).
+Proof.
+  intros Hex. unfold obs_step. eapply osame_trans; [|apply osame_refresh].
+  destruct e; try discriminate Hex; cbn [fst snd];
+  try (destruct (ev_inst o th _) eqn:Ev);
+  try match goal with |- context[match ?b with true => _ | false => _ end] => destruct b end;
+  try discriminate Hex; unfold note_late_commit;
+  repeat match goal with |- context[if ?b then _ else _] => destruct b end;
+  try apply osame_refl; osame_close.
+Qed.
